@@ -444,3 +444,53 @@ def check_input_level(prog, chk, rule_id):
         else:
             want = (OKC, NONE, 0)
         chk.ob(rule_id, inst, got == want, "expected (result, error code, status) = %s, source gives %s" % (want, got), loc=fn.loc(), fn=fn)
+
+
+def check_verify_entry(prog, chk, rule_id):
+    """KSI_Signature_verifyWithPolicy: the document hash and level handed to the verifier are the caller's arguments whenever they are
+    given, with or without a caller-supplied context."""
+    import itertools
+    from ksirules.interp import TOP, Interp, Ptr, succeed_model
+    from ksirules.model import lvalue_key, strip
+    fn = prog.fn("KSI_Signature_verifyWithPolicy", "signature_helper.c")
+    sp, hp, lp, pp, cp = [p["n"] for p in fn.params]
+    for ctxkind, hsh, level in itertools.product(("none", "empty", "own-hash"), (0, 1), (0, 7)):
+        seen = {}
+
+        def verify(I, p, node, args, seen=seen):
+            a = strip(node["a"][1])
+            key = lvalue_key(a["e"], I.fn) if isinstance(a, dict) and a.get("k") == "un" else None
+            # the argument object is already marked as possibly modified by the call: take what was stored into it before
+            def last(k):
+                st = p.stores(k)
+                return st[-1][2] if st else TOP
+            seen["hash"] = last(key + ".documentHash") if key else TOP
+            seen["level"] = last(key + ".docAggrLevel") if key else TOP
+            seen["sig"] = last(key + ".signature") if key else TOP
+            I.write(p, lvalue_key(strip(node["a"][2])["e"], I.fn), Ptr("RES"))
+            return 0
+
+        def init(I, p, node, args):
+            a = strip(node["a"][0])
+            key = lvalue_key(a["e"], I.fn)
+            for f, v in (("documentHash", 0), ("docAggrLevel", 0), ("signature", 0), ("ctx", args[1]), ("extendingAllowed", 0), ("userPublication", 0),
+                         ("userPublicationsFile", 0), ("tempData", 0)):
+                I.write(p, "%s.%s" % (key, f), v)
+            return 0
+        inputs = {sp: Ptr("SIG"), hp: Ptr("DOC") if hsh else 0, lp: level, pp: Ptr("POL"), cp: 0 if ctxkind == "none" else Ptr("VC"), "SIG->ctx": Ptr("ctx"),
+                  "RES->finalResult.resultCode": prog.const("KSI_VER_RES_OK"),
+                  "VC->documentHash": Ptr("VCHASH") if ctxkind == "own-hash" else 0, "VC->docAggrLevel": 0, "VC->signature": 0, "VC->ctx": Ptr("ctx"),
+                  "VC->extendingAllowed": 1, "VC->userPublication": 0, "VC->userPublicationsFile": 0, "VC->tempData": 0}
+        ov = {"KSI_SignatureVerifier_verify": verify, "KSI_VerificationContext_init": init}
+        I = Interp(fn, inputs=inputs, call_model=succeed_model(prog, ov), on_unknown="stop", prog=prog)
+        paths = I.run()
+        chk.paths += len(paths)
+        inst = "verifyWithPolicy[context=%s,document hash %s,level=%d]" % (ctxkind, "given" if hsh else "omitted", level)
+        if len(paths) != 1 or paths[0].undetermined:
+            raise AnalysisBroken("KSI_Signature_verifyWithPolicy: evaluation not determined for %s: %s" % (inst, [q.undetermined[:1] for q in paths]))
+        want_hash = Ptr("DOC") if hsh else (Ptr("VCHASH") if ctxkind == "own-hash" else 0)
+        want_level = level
+        ok = seen.get("hash") == want_hash and seen.get("level") == want_level and seen.get("sig") == Ptr("SIG") and paths[0].ret == 0
+        chk.ob(rule_id, inst, ok,
+               "the verifier must see document hash %s and level %d; source hands over hash %s, level %s, signature %s (status %s)"
+               % (want_hash, want_level, seen.get("hash"), seen.get("level"), seen.get("sig"), paths[0].ret), loc=fn.loc(), fn=fn)
